@@ -54,7 +54,12 @@ func (p *Parser) walker(ctx interface{}, node interface{}) (stop bool) {
 		}
 
 	case *tree.CommentOnColumn:
-		p.Migration.AddComment(n.TableName.String(), n.Column(), *n.Comment)
+		// COMMENT ON COLUMN ... IS NULL removes the comment: the parser leaves Comment nil
+		comment := ""
+		if n.Comment != nil {
+			comment = *n.Comment
+		}
+		p.Migration.AddComment(n.TableName.String(), n.Column(), comment)
 
 	case *tree.CreateIndex:
 		p.Migration.AddIndex("", postgresIndex(n))
